@@ -669,6 +669,26 @@ impl Ty {
         self_can_lose_distinction: bool,
     ) -> bool {
         match (self, other) {
+            // two different nominal types are only equivalent when the distinction may be lost.
+            // (this matters when they are nested, e.g. `^A` and `^B` for two distincts of `i32`)
+            (
+                Ty::Distinct { uid: first_uid, .. },
+                Ty::Distinct {
+                    uid: second_uid, ..
+                },
+            )
+            | (
+                Ty::EnumVariant { uid: first_uid, .. },
+                Ty::EnumVariant {
+                    uid: second_uid, ..
+                },
+            )
+            | (
+                Ty::ConcreteStruct { uid: first_uid, .. },
+                Ty::ConcreteStruct {
+                    uid: second_uid, ..
+                },
+            ) if !self_can_lose_distinction && first_uid != second_uid => false,
             (
                 Ty::ConcreteArray {
                     size: first_size,
